@@ -94,7 +94,7 @@ class Ser:
         if isinstance(e, ast.Attribute) and isinstance(e.value, ast.Name) and e.value.id == 'Instruction':
             if e.attr not in self.opnames:
                 fail('unknown Instruction member', e)
-            return f'(pyop "{e.attr}")'
+            return f'(pyop "{e.attr}"%string)'
         if isinstance(e, ast.Constant) and isinstance(e.value, int) and not isinstance(e.value, bool):
             return str(e.value)
         if isinstance(e, ast.Name):
@@ -760,20 +760,20 @@ def generate(repo):
          '    (statement by statement) -- do not edit.  Meaning of the primitives: coq/Interp/SerialLib.v *)',
          'From Coq Require Import NArith List Bool String.',
          'From Pi2 Require Import ML.Syntax ML.Subst ML.Machine Interp.Calls Interp.SerialLib.',
-         'Import ListNotations.', 'Open Scope N_scope.', 'Open Scope string_scope.', '',
+         'Import ListNotations.', 'Open Scope N_scope.', '',
          '(** class Instruction(IntEnum) *)',
-         'Definition ps_opcodes : list (N * string) :=', '  [' + ';\n   '.join(f'({b}, "{n}")' for b, n in ops) + '].',
+         'Definition ps_opcodes : list (N * string) :=', '  [' + ';\n   '.join(f'({b}, "{n}"%string)' for b, n in ops) + '].',
          'Definition pyop (name:string) : N := op_lookup ps_opcodes name.', '',
          '(** SerializingInterpreter: the bytes each method writes *)']
     L += methods
     L += ['(** (method, the super() method it calls first, the arguments it passes on, its own parameters) *)',
           'Definition gen_super : list (string * string * list string * list string) :=',
-          '  [' + ';\n   '.join('("%s", "%s", [%s], [%s])' % (s[0], s[1], '; '.join(f'"{a}"' for a in s[2]),
-                                                               '; '.join(f'"{a}"' for a in p)) for s, p in sups) + '].', '',
+          '  [' + ';\n   '.join('("%s"%%string, "%s"%%string, [%s], [%s])' % (s[0], s[1], '; '.join(f'"{a}"%string' for a in s[2]),
+                                                               '; '.join(f'"{a}"%string' for a in p)) for s, p in sups) + '].', '',
           '(** deserialize_instructions: one branch of the dispatch = operand reads, stack peeks, the call *)',
           'Definition gen_decode (op:N) (bs:list N) (tr:tracker) : option (option call * list N) :=']
     for name, code in branches:
-        L.append(f'  if N.eqb op (pyop "{name}") then\n    {code}\n  else')
+        L.append(f'  if N.eqb op (pyop "{name}"%string) then\n    {code}\n  else')
     L += ['  None.', '',
           '(** the loop: a byte that is no Instruction raises; the call of the branch is run on the interpreter *)',
           'Fixpoint gen_deser_fuel (fuel:nat) (bs:list N) (tr:tracker) : option tracker :=',
@@ -784,7 +784,7 @@ def generate(repo):
           '              match (match oc with Some c => stateful_step tr c | None => Some tr end) with',
           '              | Some tr => gen_deser_fuel f bs tr', '              | None => None end',
           '          | None => None end', '      end', '  end.',
-          'Definition gen_deser (bs:list N) (tr:tracker) : option tracker := gen_deser_fuel (List.length bs) bs tr.', '']
+          'Definition gen_deser (bs:list N) (tr:tracker) : option tracker := gen_deser_fuel (Datatypes.length bs) bs tr.', '']
     return '\n'.join(L)
 
 
